@@ -710,6 +710,13 @@ func (vc *VC) typeFacts(l *Layouter, t types.Type, c []string, brk string) []str
 			sImp(sEq(c[0], "0"), sAnd(sEq(c[2], "0"), sEq(c[3], "0"), sEq(c[1], "0"))))
 	case *types.Interface:
 		out = append(out, app(">=", c[0], "0"), sImp(sEq(c[0], "0"), sEq(c[1], "0")))
+		if vc.eng != nil && vc.eng.bigPtr != nil && tt.NumMethods() == 0 {
+			// an `any` (frontend.Variable) holding a *big.Int constant: the pointer inside a live value
+			// refers to an object that exists now
+			tag := vc.eng.tagOf(vc.eng.bigPtr)
+			un := vc.eng.unbox(vc, vc.eng.bigPtr, c[1])
+			out = append(out, sImp(sEq(c[0], sInt(int64(tag))), app("<", un[0], brk)))
+		}
 	case *types.Map, *types.Chan, *types.Signature:
 		out = append(out, app("<", c[0], brk))
 	case *types.Struct:
